@@ -570,6 +570,42 @@ func c06rExcOtherFamilyShadows(tbl []c06rEntry, name string, qt uint16) bool {
 	return excOther && wildVal
 }
 
+// c06rCanonCoveredNoValue: the canonical name asked upstream is itself covered
+// by the table (no CNAME entry, no "A"/"AAAA" exception of the requested
+// type) and has no value of the requested type.  Asked directly such a name is
+// answered empty without an upstream call; reached through a CNAME rewrite the
+// unchanged code resolves it upstream (AGHTechDoc "Example: CNAME+A records"
+// documents "AAAA: CNAME = host.com" only).  REPORTED to the lead in round 4
+// (notes/fix-drafts/27-C06-*), counted as a class until decided, not judged.
+func c06rCanonCoveredNoValue(tbl []c06rEntry, asked string, qt uint16) bool {
+	asked = strings.ToLower(asked)
+	matched := false
+	for _, e := range tbl {
+		if !c06rMatches(e.dom, asked) {
+			continue
+		}
+		matched = true
+		ip, err := netip.ParseAddr(e.ans)
+		switch {
+		case e.ans == "A":
+			if qt == dns.TypeA {
+				return false
+			}
+		case e.ans == "AAAA":
+			if qt == dns.TypeAAAA {
+				return false
+			}
+		case err != nil:
+			return false
+		default:
+			if (qt == dns.TypeA && ip.Is4()) || (qt == dns.TypeAAAA && !ip.Is4()) {
+				return false
+			}
+		}
+	}
+	return matched
+}
+
 // c06rAddrSource: a locally answered address is the value of the most
 // specific entry for the finally resolved name: of an exact entry when the
 // name has an exact value of the family or an exact "A"/"AAAA" entry of
@@ -856,6 +892,9 @@ func TestVerifC06Resp(t *testing.T) {
 					if c06rExcOtherFamilyShadows(tb.entries, fin, qt) {
 						classes["resp-shadow-exc-other-family"] = true
 						if fin != strings.ToLower(h) {
+							// not reached on the unchanged code (not listed in
+							// props/C06.json): a canonical name without a value
+							// is resolved upstream, see c06rCanonCoveredNoValue
 							classes["resp-shadow-exc-other-family-via-cname"] = true
 						}
 					}
@@ -890,6 +929,9 @@ func TestVerifC06Resp(t *testing.T) {
 					}
 					if c06rHasUpper(c06rTrim(o.calls[0].Name)) {
 						classes["cname-upstream-mixed-case-name"] = true
+					}
+					if enabled && c06rCanonCoveredNoValue(tb.entries, c06rTrim(o.calls[0].Name), qt) {
+						classes["resp-cname-target-covered-without-value-upstream"] = true
 					}
 				default:
 					classes["resp-forwarded"] = true
